@@ -273,6 +273,8 @@
 #![cfg_attr(docsrs, feature(doc_cfg), deny(rustdoc::broken_intra_doc_links))]
 
 pub mod atomics;
+#[cfg(metrics_verif)]
+pub mod verif;
 
 mod common;
 mod macros;
